@@ -247,9 +247,32 @@ func c19IdleForwarder(c *factsCtx, files []*ast.File) (string, []string) {
 		return "unknown", []string{"callback of State.Idle not found"}
 	}
 	ch := cb.Type.Params.List[1].Names[0].Name
-	es, ok := cb.Body.List[0].(*ast.ExprStmt)
+	// the goroutine is started by the first statement of the callback — after, at most, plain assignments of
+	// literals / identifiers to local variables (`senderStarted = true`, /repo 072b3ea), which cannot block or return
+	var prologue []string
+	first := 0
+	for first < len(cb.Body.List)-1 {
+		as, ok := cb.Body.List[first].(*ast.AssignStmt)
+		if !ok || len(as.Lhs) != 1 || len(as.Rhs) != 1 {
+			break
+		}
+		if _, ok := as.Lhs[0].(*ast.Ident); !ok {
+			break
+		}
+		switch as.Rhs[0].(type) {
+		case *ast.Ident, *ast.BasicLit:
+		default:
+			ok = false
+		}
+		if !ok {
+			break
+		}
+		prologue = append(prologue, "assign "+c.render(as))
+		first++
+	}
+	es, ok := cb.Body.List[first].(*ast.ExprStmt)
 	if !ok {
-		return "unknown", []string{c.render(cb.Body.List[0])}
+		return "unknown", []string{c.render(cb.Body.List[first])}
 	}
 	call, ok := es.X.(*ast.CallExpr)
 	if !ok || c.render(call.Fun) != "async.GoAnnotated" {
@@ -282,7 +305,22 @@ func c19IdleForwarder(c *factsCtx, files []*ast.File) (string, []string) {
 		}
 		branches = append(branches, list)
 	}
-	split(body.Body.List)
+	// leading `defer close(<ident>)` statements of the goroutine (it reports its own exit, /repo 072b3ea) do not
+	// change when it ends
+	goBody := body.Body.List
+	for len(goBody) > 1 {
+		ds, ok := goBody[0].(*ast.DeferStmt)
+		if !ok || c.render(ds.Call.Fun) != "close" || len(ds.Call.Args) != 1 {
+			break
+		}
+		if _, ok := ds.Call.Args[0].(*ast.Ident); !ok {
+			break
+		}
+		prologue = append(prologue, "defer "+c.render(ds.Call))
+		goBody = goBody[1:]
+	}
+	split(goBody)
+	shape = append(shape, prologue...)
 	all := true
 	for _, br := range branches {
 		okBranch := false
